@@ -114,6 +114,25 @@ def run(ck):
           "acceptThread is joined (when joinable) before close(listen_fd)" if ok else
           "close(listen_fd) can run while the acceptor thread is still polling that descriptor: accept4 on a closed fd terminates the process")
 
+    # ---------------- R4: no self-deadlock on the transport's non-recursive mutex ----------------
+    ck.rule("C09-R4", "A lockset + call-graph reachability (lock re-entrancy)",
+            "no call made while a server-side member mutex is held (Transport::toWriteLock) can reach a function that acquires the same "
+            "mutex again: promise continuations run by deferred.resolve/reject (e.g. the idle time-out's release path, which locks "
+            "toWriteLock in removePeer) are only invoked after the lock was released", 5)
+    for fn in prog.funcs.values():
+        if fn.is_lambda or not (fn.file.startswith(facts.REPO + "/src") or fn.file.startswith(facts.REPO + "/include")):
+            continue
+        if fn.file.endswith("/client/client.cc") or fn.file.endswith("/pistache/async.h"):
+            continue    # client locks: C15-R6; promise-internal locks: C12
+        for d_ in fn.events("decl"):
+            g_ = lib.guard_of_decl(d_)
+            if not g_ or g_[2] != "this":
+                continue
+            hits = lib.reentrant_acquisitions(prog, fn, g_[1])
+            ck.ob("C09-R4", "%s holds %s" % (fn.base.replace("Pistache::", ""), g_[1].rsplit("::", 1)[1]), not hits, d_.loc, fn,
+                  "nothing called under the lock can lock it again" if not hits else
+                  "the call at %s, made with the lock held, reaches %s which locks it again" % (hits[0][0].loc, hits[0][2].func.name), path=hits[0][1] if hits else None)
+
     # ---------------- R3 ----------------
     def off_thread_arm(fn):
         """successor block taken when !isInRightThread"""
